@@ -695,15 +695,7 @@ Definition sub_exact (m : subm) : bool :=
 Definition exact (c : case) : bool :=
   negb (too_big c) && forallb (fun d => forallb sub_exact (d_subs d)) (c_dgs c).
 
-Definition obs_eqb_for (c : case) (m i : obs) : bool :=
-  list_eqb outcome_eqb (o_outcomes m) (o_outcomes i)
-  && zl_eqb (o_bytes m) (o_bytes i)
-  && Bool.eqb (o_w2_delivered m) (o_w2_delivered i)
-  && option_eqb Z.eqb (o_w2_base m) (o_w2_base i)
-  && (negb (exact c)
-      || (list_eqb reply_eqb (o_replies m) (o_replies i)
-          && option_eqb digest_eqb (o_digest m) (o_digest i))).
-Definition case_obs_eqb (c : case) := obs_eqb_for c.
+
 
 (* ---------------------------------------------------------------------------------------- *)
 (* Property oracle: observables only.
@@ -735,6 +727,24 @@ Definition sub_known (m : subm) : bool :=
   match m with DataFrag _ _ _ _ total pl => 64 * pl + 1024 <? total | _ => false end.
 Definition known_class (c : case) : bool :=
   existsb (fun d => existsb sub_known (d_subs d)) (c_dgs c).
+
+(* Correspondence.  Always compared: per-datagram outcomes, datagram sizes (the model's size
+   function), the well-behaved peer's service.  For exact cases also the ACKNACKs emitted and the
+   state digest; moreover the model's own allocation / retained-size / step counters must satisfy
+   the oracle's budgets (outside the known-finding class), and the bytes the implementation
+   allocated for one datagram must not exceed twice the model's count plus 64 KiB (the model's
+   allocation counter over-approximates the implementation's allocations). *)
+Definition obs_eqb_for (c : case) (m i : obs) : bool :=
+  list_eqb outcome_eqb (o_outcomes m) (o_outcomes i)
+  && zl_eqb (o_bytes m) (o_bytes i)
+  && Bool.eqb (o_w2_delivered m) (o_w2_delivered i)
+  && option_eqb Z.eqb (o_w2_base m) (o_w2_base i)
+  && (negb (exact c)
+      || (list_eqb reply_eqb (o_replies m) (o_replies i)
+          && option_eqb digest_eqb (o_digest m) (o_digest i)
+          && (known_class c || ok c m)
+          && (o_max_alloc i <=? 2 * o_max_alloc m + 65536))).
+Definition case_obs_eqb (c : case) := obs_eqb_for c.
 
 (* field values within their Rust types, number-set words as the reader builds them *)
 Definition in_u32 (x : Z) : bool := (0 <=? x) && (x <=? u32_max).
